@@ -11,7 +11,7 @@ for p in props:
         checks.append({
             "property_id": pid,
             "quick_cmd": f"bin/gosym check {pid} --tier quick" + c.get('args',''),
-            "thorough_cmd": f"bin/gosym check {pid} --tier thorough" + c.get('args',''),
+            "thorough_cmd": f"bin/gosym check {pid} --tier thorough" + c.get('args','') + c.get('thorough_args',''),
             "evidence_file": f"/verif/evidence/{pid}.json",
             "replay_cmd_template": "bin/gosym replay {path}",
             "engine": "gosym",
